@@ -102,8 +102,8 @@ macro_rules! with_digest {
 }
 
 pub fn run(ctx: &Ctx) {
-    let corpus = value_corpus(3, 256, if ctx.quick() { 6 } else { 20 });
-    let algos: Vec<CrcAlgo> = if ctx.quick() { ONE_PER_WIDTH.to_vec() } else { ALL_CRC.to_vec() };
+    let corpus = value_corpus(3, 256, if ctx.quick() { 16 } else { 32 });
+    let algos: Vec<CrcAlgo> = ALL_CRC.to_vec();
     let calls = AtomicU64::new(0);
     let multi_blocks = AtomicU64::new(0);
     corpus.par_iter().enumerate().for_each(|(si, (s, vals))| {
